@@ -6,7 +6,7 @@ import common as C
 from props import c14
 
 PROP = 'C04'
-THEOREMS = ['peq_ergodic_stationary', 'peq_general', 'peq_strict_rejects', 'stationary_unique_thm', 'peq_unique']
+THEOREMS = ['peq_ergodic_stationary', 'peq_general', 'peq_strict_rejects', 'stationary_unique_thm', 'peq_unique', 'stationary_exists_thm']
 CONFIGS = [dict(jit=True)]
 CONFIGS_THOROUGH = [dict(jit=True), dict(jit=False)]
 RULE = ('row-stochastic matrices from random sparse count matrices with 2..8 states (irreducible, '
